@@ -170,8 +170,11 @@ func TestC02(t *testing.T) {
 // C03: no accepted job is lost or stranded on the wait list.
 func TestC03(t *testing.T) {
 	cfg := &Cfg{Prop: "C03", MaxPipelines: 2, MaxTasks: 2, DelayPct: 50, ReplacePct: 25, CyclicPct: 10, ReservedPct: 15, Retention: true,
-		LimitChoices: []int{-1, -1, -1, 2, 3, 1}, Weights: map[string]int{"schedule": 36, "cancel": 16, "finish": 24, "timer": 14, "hold": 2, "release": 4, "reload": 5, "save": 1, "saveRetention": 5},
-		Armed: map[string]bool{"C03": true}}
+		LimitChoices: []int{-1, -1, -1, 2, 3, 1}, Weights: map[string]int{"schedule": 36, "cancel": 16, "finish": 24, "timer": 14, "hold": 2, "release": 4, "reload": 7, "save": 3, "saveRetention": 5},
+		// (a third of the reloads remove a pipeline or define one again: with a save in between, that is how a
+		// waiting job gets purged and its pipeline comes back)
+		ReloadKinds: []string{"removePipeline", "removePipeline", "addPipeline", "addPipeline", "delay", "delay", "conc", "limit", "strategy", "script", "rewire", "addTask"},
+		Armed:       map[string]bool{"C03": true}}
 	runHistories(t, histOpts{cfg: cfg, failPct: 15,
 		rule: "histories biased to cancels of waiting jobs (before/after their timer), unstartable heads (reserved variable, cyclic graph), replace and reloads with a non-empty queue; pipelines carry retention settings and saves are interleaved (a save must never take away a job that still waits or runs); oracle: at every quiescent point under an unchanged definition free slot && head's delay expired => head started; after a drain (all holds released, timers fired, tasks finished) every accepted job of a still-defined pipeline started or is canceled; non-trivial = cancel of a waiting job with another behind it, or an unstartable job that waited, or a replacement, or a reload with waiting jobs; distinct by action trace",
 		nontrivial: func(c map[string]int) bool {
